@@ -81,7 +81,7 @@ META = {
              "(legalRemoved_sound/_complete, legalCount_sound/_complete/_exact, legalCount_perm). The models are tied to the code by replaying every "
              "generated op on the real ChunkedStorage2 / MappingsCache and on the compiled Lean model and diffing state digests after every op, incl. "
              "every truncation offset and every single-bit flip of small saved files (thorough tier)."),
-    "note": ("Trusted: Lean kernel; the correspondence on generated op sequences; xxh3 as an uninterpreted function (detection of changed bytes is proved in "
+    "note": ("Round 7: every third `mc save` op is preceded by a Save whose file write is refused (oracle save-failure-forgotten / save-failure-swallowed: a failed Save must not be counted as saved, the retry must write). Trusted: Lean kernel; the correspondence on generated op sequences; xxh3 as an uninterpreted function (detection of changed bytes is proved in "
              "reduction form only: it fails exactly when the damaged file itself PassesFrom; the first-round escape clause HashCoincidence was too weak — "
              "hashCoincidence_trivial shows any H satisfies it — and is superseded, the old theorems are kept); locks (one call = one step), "
              "accessTSGran = 1, no int64 overflow, items < ChunkSize/2 (strings <= 500000 bytes in the closed theorem), slice-storage callbacks. Remaining "
